@@ -942,16 +942,21 @@ def check_C08(tier):
     # symbol-level: symbols outside the grammar, legacy symbols, zero-capacity and H-rich atoms, all flags,
     # and the same inputs again after the constraint table has been switched (loose -> tight -> loose)
     hrich = ["[C]", "[=C]", "[CH4]", "[NH4]", "[OH2]", "[NH3]", "[CH5]", "[Branch1]", "[=Branch1]", "[Ring1]", "[O]", ".", "[BH4]"]
+    # pre-v2 spellings whose modern form is itself outside the grammar (rejected only after modernisation)
+    leg_bad = ["[C]", "[CH5expl]", "[=OH3expl]", "[NH5+expl]", "[Fooexpl]", "[C@@@expl]", "[Branch1_4]", "[Expl~Ring1]", "[=Branch1]", "[Ring1]",
+               "[FH2expl]", "[expl]", "[=expl]"]
     sym_inputs = []
     for nm, alpha, ml in (("bad+legacy", DEC["bad"] + LEGACY[2:8], 3 if quick else 4), ("caps", DEC["caps"], 3 if quick else 4),
-                          ("hrich", hrich, 4 if quick else 5), ("frag", DEC["frag"], 3 if quick else 4)):
+                          ("hrich", hrich, 4 if quick else 5), ("frag", DEC["frag"], 3 if quick else 4),
+                          ("legacy_bad", leg_bad, 3 if quick else 4)):
         results, vecs = de.run_decoder_tlc("sym_" + nm.replace("+", "_"), alpha, "default", ml, emit=True, fastjit=quick)
         add_results(rep, "symbol level: " + nm, results, vectors=len(vecs))
-        sym_inputs += ["".join(v["inp"]) for v in vecs]
+        grp = sorted(set("".join(v["inp"]) for v in vecs))
+        rng0 = random.Random(seed() + 808 + len(grp))
+        if quick and len(grp) > 3500:           # every configuration keeps its share of the replay budget
+            grp = rng0.sample(grp, 3500)
+        sym_inputs += grp
     sym_inputs = sorted(set(sym_inputs))
-    rng0 = random.Random(seed() + 808)
-    if quick and len(sym_inputs) > 12000:
-        sym_inputs = rng0.sample(sym_inputs, 12000)
     try:
         for tab in ("hypervalent", "default", TABLES["tight"], TABLES["wide"], "octet_rule", "default"):
             sf.set_semantic_constraints(tab if isinstance(tab, str) else dict(tab))
